@@ -310,36 +310,48 @@ func reqWith(name string, qtype uint16, cd bool, opts []optT, hasOpt bool, versi
 	return m
 }
 
-// rawQuery hand-assembles "x.c19.test. A" with one OPT carrying opts verbatim.
-func rawQuery(opts []optT) []byte {
-	b := []byte{0, 1, 1, 0, 0, 1, 0, 0, 0, 0, 0, 1}
-	for _, l := range []string{"x", "c19", "test"} {
+// rawMsg hand-assembles a query whose additional section holds one OPT record
+// per element of opts, each carrying its options verbatim.
+func rawMsg(name string, qtype uint16, cd, do bool, opts [][]optT) []byte {
+	flags := byte(0)
+	if cd {
+		flags = 0x10
+	}
+	b := []byte{0, 1, 1, flags, 0, 1, 0, 0, 0, 0, 0, byte(len(opts))}
+	for _, l := range strings.Split(strings.TrimSuffix(name, "."), ".") {
 		b = append(b, byte(len(l)))
 		b = append(b, l...)
 	}
-	b = append(b, 0, 0, 1, 0, 1)
-	var rd []byte
-	for _, o := range opts {
-		var d []byte
-		code := o.code
-		switch {
-		case o.isECS:
-			code = dns.EDNS0SUBNET
-			d = append([]byte{byte(o.fam >> 8), byte(o.fam), o.mask, o.scope}, o.addr...)
-		case o.code == dns.EDNS0COOKIE, o.code == dns.EDNS0EDE:
-			d = vlib.UnHex(o.data)
-		case o.code == dns.EDNS0NSID, o.code == dns.EDNS0TCPKEEPALIVE:
-		case o.code == dns.EDNS0PADDING:
-			d = make([]byte, vlib.Atoi(o.data))
-		default:
-			d = vlib.UnHex(o.data)
+	b = append(b, 0, byte(qtype>>8), byte(qtype), 0, 1)
+	for _, os := range opts {
+		var rd []byte
+		for _, o := range os {
+			var d []byte
+			code := o.code
+			switch {
+			case o.isECS:
+				code = dns.EDNS0SUBNET
+				d = append([]byte{byte(o.fam >> 8), byte(o.fam), o.mask, o.scope}, o.addr...)
+			case o.code == dns.EDNS0NSID, o.code == dns.EDNS0TCPKEEPALIVE:
+			case o.code == dns.EDNS0PADDING:
+				d = make([]byte, vlib.Atoi(o.data))
+			default:
+				d = vlib.UnHex(o.data)
+			}
+			rd = append(rd, byte(code>>8), byte(code), byte(len(d)>>8), byte(len(d)))
+			rd = append(rd, d...)
 		}
-		rd = append(rd, byte(code>>8), byte(code), byte(len(d)>>8), byte(len(d)))
-		rd = append(rd, d...)
+		doBits := byte(0)
+		if do {
+			doBits = 0x80
+		}
+		b = append(b, 0, 0, 41, 0x04, 0xd0, 0, 0, doBits, 0, byte(len(rd)>>8), byte(len(rd)))
+		b = append(b, rd...)
 	}
-	b = append(b, 0, 0, 41, 0x04, 0xd0, 0, 0, 0, 0, byte(len(rd)>>8), byte(len(rd)))
-	return append(b, rd...)
+	return b
 }
+
+func rawQuery(opts []optT) []byte { return rawMsg("x.c19.test.", dns.TypeA, false, false, [][]optT{opts}) }
 
 func fail(sig, format string, a ...any) string {
 	return "FAIL sig=" + sig + " " + fmt.Sprintf(format, a...)
@@ -366,10 +378,14 @@ type stubT struct {
 	up                            []optT
 	upHas                         bool
 	ans                           int
+	respCD                        string   // t | f: CD bit of the next response instead of mirroring the query's (a hop that does not mirror CD)
 	kind                          string   // a | nd | nx: positive answer, NODATA, NXDOMAIN (SOA serial = answer id)
+	refreshCD                     string   // m | t | f: CD bit of the refresh answers (mirror / forced)
+	refreshDenial                 bool     // background refreshes are answered NXDOMAIN + validated proof
 	refresh                       bool     // answering background refreshes: one answer id each
 	refreshSeen                   []string // OPT options of each refresh query that arrived
 	refreshOpts                   [][]dns.EDNS0
+	seenPerOPT                    []string // one rendering per OPT record of the last upstream query
 }
 
 func ansIP(id int) net.IP { return net.IPv4(10, byte(id>>16), byte(id>>8), byte(id)).To4() }
@@ -403,7 +419,7 @@ func zoneOfK(k int) string { return fmt.Sprintf("z%d.c19.test.", k) }
 
 // nxResponse: a DNSSEC-shaped NXDOMAIN for a name below d.<zone>, carrying the
 // resolver's validated-denial provenance for d.<zone>.
-func nxResponse(ctx context.Context, req *dns.Msg, zone string) *dns.Msg {
+func nxResponse(ctx context.Context, req *dns.Msg, zone string, serial uint32) *dns.Msg {
 	m := new(dns.Msg)
 	m.SetReply(req)
 	m.Rcode = dns.RcodeNameError
@@ -411,7 +427,7 @@ func nxResponse(ctx context.Context, req *dns.Msg, zone string) *dns.Msg {
 	m.RecursionAvailable = true
 	m.CheckingDisabled = req.CheckingDisabled
 	soa := &dns.SOA{Hdr: dns.RR_Header{Name: zone, Rrtype: dns.TypeSOA, Class: dns.ClassINET, Ttl: 300},
-		Ns: "ns1." + zone, Mbox: "hostmaster." + zone, Serial: 1, Refresh: 3600, Retry: 600, Expire: 86400, Minttl: 300}
+		Ns: "ns1." + zone, Mbox: "hostmaster." + zone, Serial: serial, Refresh: 3600, Retry: 600, Expire: 86400, Minttl: 300}
 	n1 := &dns.NSEC{Hdr: dns.RR_Header{Name: zone, Rrtype: dns.TypeNSEC, Class: dns.ClassINET, Ttl: 300},
 		NextDomain: "c." + zone, TypeBitMap: []uint16{dns.TypeNS, dns.TypeSOA, dns.TypeRRSIG, dns.TypeNSEC}}
 	n2 := &dns.NSEC{Hdr: dns.RR_Header{Name: "c." + zone, Rrtype: dns.TypeNSEC, Class: dns.ClassINET, Ttl: 300},
@@ -423,6 +439,17 @@ func nxResponse(ctx context.Context, req *dns.Msg, zone string) *dns.Msg {
 }
 
 func (s *stubT) Name() string { return "c19upstream" }
+
+// forceCD applies the scripted CD bit to the first response of an op only.
+func (s *stubT) forceCD(m *dns.Msg) {
+	switch s.respCD {
+	case "t":
+		m.CheckingDisabled = true
+	case "f":
+		m.CheckingDisabled = false
+	}
+	s.respCD = ""
+}
 
 // ServeDNS plays the resolver + authorities: it records what reached it.
 func (s *stubT) ServeDNS(ctx context.Context, ch *middleware.Chain) {
@@ -437,16 +464,40 @@ func (s *stubT) ServeDNS(ctx context.Context, ch *middleware.Chain) {
 		lbl, _, _ := strings.Cut(q.Name, ".")
 		m.Answer = []dns.RR{&dns.CNAME{Hdr: dns.RR_Header{Name: q.Name, Rrtype: dns.TypeCNAME, Class: dns.ClassINET, Ttl: 300},
 			Target: "t" + lbl[1:] + ".d." + zoneOfK(s.ans)}}
+		s.forceCD(m)
 		_ = ch.Writer.WriteMsg(m)
-	case strings.Contains(q.Name, ".d.z"):
+	case strings.Contains(q.Name, ".d.z") && !(strings.HasPrefix(q.Name, "p") && !s.refreshDenial):
+		// names below the denied d.z<k>: NXDOMAIN with a validated proof — except the
+		// "p…" names of `pipe pq`, which exist until a refresh is told otherwise
 		s.nxCalls++
 		_, zone, _ := strings.Cut(q.Name, ".d.")
-		_ = ch.Writer.WriteMsg(nxResponse(ctx, req, zone))
+		serial := uint32(0)
+		if s.refreshDenial {
+			serial = uint32(s.ans)
+			s.ans++
+			s.seen = nil
+			if o := req.IsEdns0(); o != nil {
+				s.seen = append(s.seen, o.Option...)
+			}
+			s.refreshOpts = append(s.refreshOpts, s.seen)
+		}
+		m := nxResponse(ctx, req, zone, serial)
+		if s.refreshDenial && s.refreshCD != "m" {
+			m.CheckingDisabled = s.refreshCD == "t" // a hop that does not mirror CD
+		}
+		s.forceCD(m)
+		_ = ch.Writer.WriteMsg(m)
 	default:
 		s.ansCalls++
-		s.seen = nil
-		if o := req.IsEdns0(); o != nil {
-			s.seen = append([]dns.EDNS0{}, o.Option...)
+		// everything that would travel upstream: the resolver and the forwarder send
+		// (a copy of) the request with its whole additional section, so the options
+		// of EVERY OPT record count, not only those of the one IsEdns0 finds
+		s.seen, s.seenPerOPT = nil, nil
+		for _, rr := range req.Extra {
+			if o, ok := rr.(*dns.OPT); ok {
+				s.seen = append(s.seen, o.Option...)
+				s.seenPerOPT = append(s.seenPerOPT, renderOpts(o.Option, true))
+			}
 		}
 		m := new(dns.Msg)
 		m.SetReply(req)
@@ -501,28 +552,108 @@ type pipeT struct {
 	ledger map[int]*ansRec
 	// wireUsed: the last request entered as a wire-born one
 	wireUsed bool
+	// formerr: the raw packet did not decode; rawFallback: it took the decoded fallback
+	formerr, rawFallback bool
 }
 
-// run sends one client request through edns -> cache -> upstream stub.  A
-// proto of "wudp"/"wtcp" enters the way the server's packet path does: as a
-// wire-born request (ParseWire + ResetWire), provided the packet decodes back
-// to exactly the options of the op line and the strict parser admits it;
-// otherwise (and for every other proto) as a decoded message.
-func (p *pipeT) run(c clientT, proto string, req *dns.Msg) *dns.Msg {
-	wire := strings.HasPrefix(proto, "w")
-	w := mock.NewWriter(strings.TrimPrefix(proto, "w"), c.hostport())
+// cliReq is one client request as the op line describes it.
+type cliReq struct {
+	msg  *dns.Msg
+	opts [][]optT // options of every OPT record, in packet order (nil: no OPT)
+	eff  []optT   // options of the OPT sdns works with (the last one)
+	sent []optT   // everything the client sent, as a decoder reads it (for the oracle)
+	name string
+	qt   uint16
+	cd   bool
+	do   bool
+}
+
+// buildClient parses "<optsA>+<optsB>+…" (several OPT records) / "noopt" / "-".
+func buildClient(name string, qtype uint16, cd, do bool, tok string) *cliReq {
+	cr := &cliReq{name: name, qt: qtype, cd: cd, do: do}
+	parts := strings.Split(tok, "+")
+	last, has := parseOpts(parts[len(parts)-1])
+	cr.msg = reqWith(name, qtype, cd, last, has, 0, do)
+	cr.eff = last
+	if has {
+		var extra []dns.RR
+		for _, a := range parts[:len(parts)-1] {
+			lo, _ := parseOpts(a)
+			cr.opts = append(cr.opts, lo)
+			cr.sent = append(cr.sent, lo...)
+			extra = append(extra, reqWith("x.", dns.TypeA, false, lo, true, 0, do).Extra[0])
+		}
+		cr.opts = append(cr.opts, last)
+		cr.sent = append(cr.sent, last...)
+		cr.msg.Extra = append(extra, cr.msg.Extra...)
+	}
+	return cr
+}
+
+func (cr *cliReq) multi() bool { return len(cr.opts) > 1 }
+
+func (cr *cliReq) effHasECS() bool {
+	for _, o := range cr.eff {
+		if o.isECS {
+			return true
+		}
+	}
+	return false
+}
+
+// run sends one client request through edns -> cache -> upstream stub.
+//
+//	udp/tcp/doh   decoded message (Chain.Reset)
+//	wudp/wtcp     wire-born (ParseWire + ResetWire) when the packed message decodes
+//	              back to exactly the op line's options and the strict parser admits it
+//	rudp/rtcp     a hand-assembled packet carrying the op line's options VERBATIM
+//	              (short / long / unmasked addresses, several OPT records): wire-born
+//	              if the strict parser admits it, else server.ServeRaw's fallback
+//	              (Unpack + decoded entry); an undecodable packet is not served
+func (p *pipeT) run(c clientT, proto string, cr *cliReq) *dns.Msg {
+	kind := byte(0)
+	if proto[0] == 'w' || proto[0] == 'r' {
+		kind, proto = proto[0], proto[1:]
+	}
+	w := mock.NewWriter(proto, c.hostport())
 	ch := middleware.NewChain([]middleware.Handler{p.ed, p.ca, p.st})
-	p.wireUsed = false
-	if wire {
+	p.wireUsed, p.formerr = false, false
+	req := cr.msg
+	switch kind {
+	case 'w':
 		if raw, err := req.Pack(); err == nil {
 			back := new(dns.Msg)
-			if back.Unpack(raw) == nil && optsOf(back) == optsOf(req) {
+			if back.Unpack(raw) == nil && allOptsOf(back) == allOptsOf(req) {
 				r := new(middleware.Request)
 				if r.ParseWire(raw, time.Now(), nil) {
 					ch.ResetWire(w, r)
 					p.wireUsed = true
 				}
 			}
+		}
+	case 'r':
+		raw := rawMsg(cr.name, cr.qt, cr.cd, cr.do, cr.opts)
+		back := new(dns.Msg)
+		if back.Unpack(raw) != nil {
+			p.formerr = true
+			return nil
+		}
+		// what the client sent, as the library decodes it
+		cr.sent = nil
+		for _, rr := range back.Extra {
+			if o, ok := rr.(*dns.OPT); ok {
+				so, _ := parseOpts(renderOpts(o.Option, true))
+				cr.sent = append(cr.sent, so...)
+				cr.eff = so
+			}
+		}
+		r := new(middleware.Request)
+		if r.ParseWire(raw, time.Now(), nil) {
+			ch.ResetWire(w, r)
+			p.wireUsed = true
+		} else {
+			req = back
+			p.rawFallback = true
 		}
 	}
 	if !p.wireUsed {
@@ -532,12 +663,33 @@ func (p *pipeT) run(c clientT, proto string, req *dns.Msg) *dns.Msg {
 	return w.Msg()
 }
 
+// allOptsOf renders the options of every OPT record.
+func allOptsOf(m *dns.Msg) string {
+	var parts []string
+	for _, rr := range m.Extra {
+		if o, ok := rr.(*dns.OPT); ok {
+			parts = append(parts, renderOpts(o.Option, true))
+		}
+	}
+	if len(parts) == 0 {
+		return "noopt"
+	}
+	return strings.Join(parts, "+")
+}
+
 func optsOf(m *dns.Msg) string {
 	o := m.IsEdns0()
 	if o == nil {
 		return "noopt"
 	}
 	return renderOpts(o.Option, true)
+}
+
+func renderPolicy(p *ecs.Policy) string {
+	if p == nil {
+		return "nil"
+	}
+	return fmt.Sprintf("%s,%d,%d,%d,%d,n%d", vlib.B(p.Enabled), p.ForwardV4Max, p.ForwardV6Max, p.MinScopeV4, p.MinScopeV6, len(p.ClientNetworks))
 }
 
 func pipeNew(f []string) vlib.Res {
@@ -561,13 +713,14 @@ func pipeNew(f []string) vlib.Res {
 	middleware.VerifC19AutoWire(reg.Build(cfg))
 	pipe = p
 	pe, pc := edns.VerifC19Policy(p.ed), cache.VerifC19Policy(p.ca)
-	impl := "pol=" + vlib.B(pe != nil && pc != nil)
-	if (pe == nil) != (pc == nil) {
-		impl = "pol=mismatch"
+	// the forwarding side (edns) and the keying side (cache) must hold the same policy
+	impl := "pol=" + renderPolicy(pe)
+	if renderPolicy(pe) != renderPolicy(pc) {
+		impl = "edns=" + renderPolicy(pe) + " cache=" + renderPolicy(pc)
 	}
 	or := "ok"
 	if !spec.forwards() && (pe != nil || pc != nil) {
-		or = fail("build/invalid-or-disabled-config-yields-policy", "edns=%v cache=%v", pe != nil, pc != nil)
+		or = fail("build/invalid-or-disabled-config-yields-policy", "edns=%s cache=%s", renderPolicy(pe), renderPolicy(pc))
 	}
 	return vlib.Res{Impl: impl, Oracle: or}
 }
@@ -596,15 +749,23 @@ func allReplyOpts(m *dns.Msg) []dns.EDNS0 {
 func pipeQ(f []string) vlib.Res {
 	p := pipe
 	c, proto, qid, cd := parseClient(f[0]), f[1], vlib.Atoi(f[2]), f[3] == "t"
-	copts, chas := parseOpts(f[4])
 	ttl := vlib.Atoi(f[5])
 	uopts, uhas := parseOpts(f[6])
 	ans := vlib.Atoi(f[7])
 	st := p.st
 	st.ttl, st.up, st.upHas, st.ans, st.kind = uint32(ttl), uopts, uhas, ans, f[8]
 	before := st.ansCalls
-	req := reqWith(fmt.Sprintf("q%d.c19.test.", qid), dns.TypeA, cd, copts, chas, 0, false)
-	reply := p.run(c, proto, req)
+	name := fmt.Sprintf("q%d.c19.test.", qid)
+	if len(f) > 9 { // a name below the (possibly denied) d.z<k>, see "pipe pq"
+		name = f[9]
+	}
+	cr := buildClient(name, dns.TypeA, cd, false, f[4])
+	reply := p.run(c, proto, cr)
+	if p.formerr {
+		return vlib.Res{Impl: "formerr", Oracle: "ok", Tags: "raw-undecodable"}
+	}
+	copts, chas := cr.sent, len(cr.opts) > 0
+	_ = chas
 	reached := st.ansCalls > before
 	if reply == nil {
 		return vlib.Res{Impl: "noreply", Oracle: fail("pipe/no-reply", "")}
@@ -622,6 +783,17 @@ func pipeQ(f []string) vlib.Res {
 	impl := ""
 	if reached {
 		if v := checkForwarded(p.spec, c, true, copts, st.seen); v != "" {
+			if cr.multi() {
+				// one signature family for requests with several OPT records
+				v = strings.Replace(v, "sig=upstream/", "sig=upstream/multi-opt/", 1)
+				if i := strings.Index(v, "/code-"); i >= 0 {
+					j := strings.IndexByte(v[i:], ' ')
+					if j < 0 {
+						j = len(v) - i
+					}
+					v = v[:i] + " option" + v[i+5:i+j] + v[i+j:]
+				}
+			}
 			or = append(or, v)
 		}
 		rec := newRec(p.spec, qid, cd, uopts, uhas, st.seen)
@@ -650,7 +822,14 @@ func pipeQ(f []string) vlib.Res {
 				tags += ",stored-scoped-denial"
 			}
 		}
-		impl = fmt.Sprintf("up=%s ans=%d ropt=%s st=%s ttl=%s pf=%s", renderOpts(st.seen, true), served, ropt, stS, ttlS, pfS)
+		impl = fmt.Sprintf("up=%s ans=%d ropt=%s st=%s ttl=%s pf=%s", strings.Join(st.seenPerOPT, "+"), served, ropt, stS, ttlS, pfS)
+	} else if rec := p.ledger[served]; len(f) > 9 && reply.Rcode == dns.RcodeNameError && (rec == nil || rec.qid != qid || rec.cd != cd) {
+		// not an entry of this question: synthesised from the shared cut / proof index
+		if cr.effHasECS() || cd {
+			or = append(or, fail("denial/direct/ecs-or-cd-query-consumed-shared-denial", "answered from the shared denial index"))
+		}
+		tags = "nt,cut-synthesised"
+		impl = "up=cut"
 	} else {
 		rec := p.ledger[served]
 		servedTTL := 0
@@ -676,6 +855,13 @@ func pipeQ(f []string) vlib.Res {
 	if p.wireUsed {
 		tags = strings.TrimPrefix(tags+",wire-born", ",")
 	}
+	if p.rawFallback {
+		tags = strings.TrimPrefix(tags+",raw-decoded-fallback", ",")
+	}
+	if cr.multi() {
+		tags = strings.TrimPrefix(tags+",multi-opt", ",")
+	}
+	p.rawFallback = false
 	return vlib.Res{Impl: impl, Oracle: o, Tags: tags}
 }
 
@@ -689,7 +875,7 @@ func pipeBadVers(f []string) vlib.Res {
 	st := p.st
 	before := st.ansCalls + st.nxCalls + st.aliasCalls
 	req := reqWith(fmt.Sprintf("bv%d.c19.test.", ver), dns.TypeA, false, copts, chas, uint8(ver), false)
-	reply := p.run(c, proto, req)
+	reply := p.run(c, proto, &cliReq{msg: req})
 	reached := st.ansCalls+st.nxCalls+st.aliasCalls > before
 	if reply == nil {
 		return vlib.Res{Impl: "noreply", Oracle: fail("pipe/no-reply", "")}
@@ -714,19 +900,23 @@ func pipeBadVers(f []string) vlib.Res {
 func pipeDenial(f []string, alias bool) vlib.Res {
 	p := pipe
 	c, proto, qid, cd := parseClient(f[0]), f[1], vlib.Atoi(f[2]), f[3] == "t"
-	copts, chas := parseOpts(f[4])
 	k := vlib.Atoi(f[5])
 	st := p.st
+	st.respCD = f[6] // CD bit of the response to the client's own query
 	cuts0, proofs0 := cache.VerifC19DenialLens(p.ca)
 	nx0 := st.nxCalls
-	var req *dns.Msg
+	var cr *cliReq
 	if alias {
 		st.ans = k
-		req = reqWith(fmt.Sprintf("q%d.al.c19.test.", qid), dns.TypeMX, cd, copts, chas, 0, true)
+		cr = buildClient(fmt.Sprintf("q%d.al.c19.test.", qid), dns.TypeMX, cd, true, f[4])
 	} else {
-		req = reqWith(fmt.Sprintf("q%d.d.%s", qid, zoneOfK(k)), dns.TypeA, cd, copts, chas, 0, true)
+		cr = buildClient(fmt.Sprintf("q%d.d.%s", qid, zoneOfK(k)), dns.TypeA, cd, true, f[4])
 	}
-	reply := p.run(c, proto, req)
+	reply := p.run(c, proto, cr)
+	st.respCD = ""
+	if p.formerr {
+		return vlib.Res{Impl: "formerr", Oracle: "ok", Tags: "raw-undecodable"}
+	}
 	reached := st.nxCalls > nx0
 	cuts1, proofs1 := cache.VerifC19DenialLens(p.ca)
 	var ropts []dns.EDNS0
@@ -736,10 +926,16 @@ func pipeDenial(f []string, alias bool) vlib.Res {
 		}
 	}
 	or := checkReply(ropts)
-	sentECS := false
-	for _, o := range copts {
-		if o.isECS {
-			sentECS = true
+	// "carried ECS": a subnet option in the OPT record sdns works with.  (Other OPT
+	// records of a malformed several-OPT request are dropped unread by SetEdns0;
+	// a subnet option only there is tagged, see notes.)
+	sentECS := cr.effHasECS()
+	droppedOnly := false
+	if !sentECS {
+		for _, o := range cr.sent {
+			if o.isECS {
+				droppedOnly = true
+			}
 		}
 	}
 	if or == "" && (sentECS || cd) {
@@ -768,6 +964,16 @@ func pipeDenial(f []string, alias bool) vlib.Res {
 	if p.wireUsed {
 		tags = "nt,wire-born"
 	}
+	if p.rawFallback {
+		tags += ",raw-decoded-fallback"
+	}
+	if cr.multi() {
+		tags += ",multi-opt"
+	}
+	if droppedOnly {
+		tags += ",ecs-only-in-dropped-opt"
+	}
+	p.rawFallback = false
 	return vlib.Res{Impl: fmt.Sprintf("%s=%s cuts=%d", name, vlib.B(reached), cuts1), Oracle: or, Tags: tags}
 }
 
@@ -1015,6 +1221,40 @@ func exec(op string) vlib.Res {
 			tags = "nt,refresh-run"
 		}
 		return vlib.Res{Impl: fmt.Sprintf("n=%d up=%s", len(items), strings.Join(st.refreshSeen, "|")), Oracle: or, Tags: tags}
+	case "pipe pq":
+		// pipe pq <client> <proto> <qid> <cd> <copts> <k> <ans>: a name that exists below d.z<k>
+		return pipeQ([]string{a[0], a[1], a[2], a[3], a[4], "600", "-", a[6], "a", fmt.Sprintf("p%s.d.%s", a[2], zoneOfK(vlib.Atoi(a[5])))})
+	case "pipe refreshnx":
+		// pipe refreshnx <ans> <m|t|f>: run the queued refreshes (CD bit of the answers: mirrored / forced); the authority now denies the
+		// names (NXDOMAIN + validated proof for d.z<k>, SOA serial ans+i)
+		p := pipe
+		st := p.st
+		base := vlib.Atoi(a[0])
+		st.ans, st.refreshDenial, st.refreshOpts, st.refreshCD = base, true, nil, a[1]
+		cuts0, proofs0 := cache.VerifC19DenialLens(p.ca)
+		items := cache.VerifC19RunPrefetch(p.ca)
+		st.refreshDenial = false
+		or := "ok"
+		for i, it := range items {
+			lbl, _, _ := strings.Cut(it.Q.Name, ".")
+			p.ledger[base+i] = &ansRec{qid: vlib.Atoi(lbl[1:]), cd: it.CD, viaRefresh: true}
+			hadECS := it.HadECS
+			for _, o := range it.Opts {
+				if _, is := o.(*dns.EDNS0_SUBNET); is {
+					hadECS = true
+				}
+			}
+			if (hadECS || it.CD) && (it.CutsAfter != cuts0 || it.ProofsAfter != proofs0) && or == "ok" {
+				or = fail("denial/refresh/ecs-or-cd-triggered-refresh-created-shared-denial", "%s ecs=%v cd=%v cuts %d->%d proofs %d->%d",
+					it.Q.Name, hadECS, it.CD, cuts0, it.CutsAfter, proofs0, it.ProofsAfter)
+			}
+			cuts0, proofs0 = it.CutsAfter, it.ProofsAfter
+		}
+		tags := ""
+		if len(items) > 0 {
+			tags = "nt,refresh-denial-run"
+		}
+		return vlib.Res{Impl: fmt.Sprintf("n=%d cuts=%d", len(items), cuts0), Oracle: or, Tags: tags}
 	case "pipe pfq":
 		n, scoped := cache.VerifC19DrainPrefetch(pipe.ca)
 		or := "ok"
